@@ -22,10 +22,19 @@ import (
 type Poly struct {
 	T     map[string]*big.Rat  // canonical monomial → coefficient ("" is the constant term)
 	Leaf  map[string]ssa.Value // leaf key → a representative SSA value
+	Opq   map[string]*Opaque   // opaque leaves: operator and operand forms
 	Exact bool                 // false when something could not be interpreted (still a valid key)
 }
 
-func newPoly() *Poly { return &Poly{T: map[string]*big.Rat{}, Leaf: map[string]ssa.Value{}, Exact: true} }
+// Opaque is a non-polynomial operator applied to normal forms (Trunc, Round, Ceil, Min, Max, Abs).
+type Opaque struct {
+	Op   string
+	Args []*Poly
+}
+
+func newPoly() *Poly {
+	return &Poly{T: map[string]*big.Rat{}, Leaf: map[string]ssa.Value{}, Opq: map[string]*Opaque{}, Exact: true}
+}
 
 func polyConst(r *big.Rat) *Poly {
 	p := newPoly()
@@ -45,6 +54,9 @@ func polyLeaf(key string, v ssa.Value) *Poly {
 	return p
 }
 
+// Clone returns a deep copy.
+func (p *Poly) Clone() *Poly { return p.clone() }
+
 func (p *Poly) clone() *Poly {
 	q := newPoly()
 	for k, c := range p.T {
@@ -52,6 +64,9 @@ func (p *Poly) clone() *Poly {
 	}
 	for k, v := range p.Leaf {
 		q.Leaf[k] = v
+	}
+	for k, v := range p.Opq {
+		q.Opq[k] = v
 	}
 	q.Exact = p.Exact
 	return q
@@ -72,6 +87,9 @@ func (p *Poly) addScaled(o *Poly, k *big.Rat) *Poly {
 	}
 	for k, v := range o.Leaf {
 		r.Leaf[k] = v
+	}
+	for k, v := range o.Opq {
+		r.Opq[k] = v
 	}
 	r.Exact = p.Exact && o.Exact
 	return r
@@ -166,6 +184,12 @@ func (p *Poly) Mul(o *Poly) *Poly {
 	for k, v := range o.Leaf {
 		r.Leaf[k] = v
 	}
+	for k, v := range p.Opq {
+		r.Opq[k] = v
+	}
+	for k, v := range o.Opq {
+		r.Opq[k] = v
+	}
 	r.Exact = p.Exact && o.Exact
 	return r
 }
@@ -180,6 +204,9 @@ func (p *Poly) Quo(o *Poly, v ssa.Value) *Poly {
 			inv.T[joinMono(d, n)] = new(big.Rat).Inv(c)
 			for k, lv := range o.Leaf {
 				inv.Leaf[k] = lv
+			}
+			for k, lv := range o.Opq {
+				inv.Opq[k] = lv
 			}
 			inv.Exact = o.Exact
 			return p.Mul(inv)
@@ -223,6 +250,25 @@ func (p *Poly) Rename(f func(key string, v ssa.Value) (string, bool)) (*Poly, bo
 	okAll := true
 	role := map[string]string{}
 	for k, v := range p.Leaf {
+		if oq, isOpq := p.Opq[k]; isOpq {
+			// rename inside the operator's operands and rebuild the canonical key
+			var args []*Poly
+			okArgs := true
+			for _, a := range oq.Args {
+				ra, ok := a.Rename(f)
+				okArgs = okArgs && ok
+				args = append(args, ra)
+			}
+			if okArgs {
+				np := MakeOpaque(oq.Op, v, args...)
+				for nk := range np.T {
+					role[k] = nk
+					r.Opq[nk] = np.Opq[nk]
+					r.Leaf[nk] = v
+				}
+				continue
+			}
+		}
 		if n, ok := f(k, v); ok {
 			role[k] = n
 		}
@@ -358,8 +404,23 @@ func (ff *FuncFacts) opaque(op string, v ssa.Value, args ...*Poly) *Poly {
 			}
 		}
 	}
-	p := polyLeaf(op+"("+strings.Join(as, ",")+")", v)
+	p := MakeOpaque(op, v, args...)
 	p.Exact = exact
+	return p
+}
+
+// MakeOpaque builds the opaque leaf op(args…) with its canonical key.
+func MakeOpaque(op string, v ssa.Value, args ...*Poly) *Poly {
+	var as []string
+	for _, a := range args {
+		as = append(as, a.String())
+	}
+	if op == "Min" || op == "Max" {
+		sort.Strings(as)
+	}
+	key := op + "(" + strings.Join(as, ",") + ")"
+	p := polyLeaf(key, v)
+	p.Opq[key] = &Opaque{Op: op, Args: args}
 	return p
 }
 
@@ -433,6 +494,24 @@ func (ff *FuncFacts) poly(v ssa.Value, depth int) *Poly {
 		return rec(x.X)
 	case *ssa.ChangeType:
 		return rec(x.X)
+	case *ssa.Slice:
+		// a coins literal / variadic argument: the sum of its elements
+		if els, ok := SliceLiteral(x); ok {
+			sum := newPoly()
+			for _, e := range els {
+				sum = sum.Add(rec(e))
+			}
+			return sum
+		}
+	case *ssa.Phi:
+		if depth < 20 {
+			if mm := ff.phiMinMax(x, depth); mm != nil {
+				return mm
+			}
+			if acc := ff.phiAccumulator(x, depth); acc != nil {
+				return acc
+			}
+		}
 	case *ssa.BinOp:
 		switch x.Op {
 		case token.ADD:
@@ -451,6 +530,14 @@ func (ff *FuncFacts) poly(v ssa.Value, depth int) *Poly {
 			return rec(x.X).Neg()
 		}
 		if x.Op == token.MUL {
+			// a coin assembled field by field (sdk.Coin{Denom: d, Amount: a}) is its amount
+			if isCoinType(x.Type()) {
+				if m, ok := ff.agg[x]; ok {
+					if av, ok := m[".Amount"]; ok && av != nil && av != unknownValue {
+						return rec(av)
+					}
+				}
+			}
 			if g, ok := x.X.(*ssa.Global); ok {
 				if iv := ff.globalInit(g); iv != nil {
 					// evaluated in the init function's own facts
@@ -543,3 +630,319 @@ func (ff *FuncFacts) poly(v ssa.Value, depth int) *Poly {
 }
 
 var _ = fmt.Sprintf
+
+// ParseExpr reads an expected form with role names, rational numbers, + - * /, parentheses
+// and the opaque operators: "Trunc(TOTAL*Min(HEIGHT-START,N)/N)".
+func ParseExpr(src string) *Poly {
+	ps := &exprParser{s: strings.ReplaceAll(src, " ", "")}
+	p := ps.expr()
+	return p
+}
+
+type exprParser struct {
+	s string
+	i int
+}
+
+func (ps *exprParser) peek() byte {
+	if ps.i < len(ps.s) {
+		return ps.s[ps.i]
+	}
+	return 0
+}
+
+func (ps *exprParser) expr() *Poly {
+	p := ps.term()
+	for ps.peek() == '+' || ps.peek() == '-' {
+		op := ps.peek()
+		ps.i++
+		q := ps.term()
+		if op == '+' {
+			p = p.Add(q)
+		} else {
+			p = p.Sub(q)
+		}
+	}
+	return p
+}
+
+func (ps *exprParser) term() *Poly {
+	p := ps.factor()
+	for ps.peek() == '*' || ps.peek() == '/' {
+		op := ps.peek()
+		ps.i++
+		q := ps.factor()
+		if op == '*' {
+			p = p.Mul(q)
+		} else {
+			p = p.Quo(q, nil)
+		}
+	}
+	return p
+}
+
+func (ps *exprParser) factor() *Poly {
+	switch c := ps.peek(); {
+	case c == '-':
+		ps.i++
+		return ps.factor().Neg()
+	case c == '(':
+		ps.i++
+		p := ps.expr()
+		ps.i++ // ')'
+		return p
+	case c >= '0' && c <= '9':
+		j := ps.i
+		for ps.i < len(ps.s) && (ps.s[ps.i] >= '0' && ps.s[ps.i] <= '9' || ps.s[ps.i] == '.') {
+			ps.i++
+		}
+		r, _ := new(big.Rat).SetString(ps.s[j:ps.i])
+		return polyConst(r)
+	}
+	j := ps.i
+	for ps.i < len(ps.s) && (ps.s[ps.i] == '_' || ps.s[ps.i] == '@' || ps.s[ps.i] >= 'A' && ps.s[ps.i] <= 'Z' || ps.s[ps.i] >= 'a' && ps.s[ps.i] <= 'z' || ps.s[ps.i] >= '0' && ps.s[ps.i] <= '9') {
+		ps.i++
+	}
+	name := ps.s[j:ps.i]
+	if ps.peek() == '(' {
+		ps.i++
+		var args []*Poly
+		for {
+			args = append(args, ps.expr())
+			if ps.peek() == ',' {
+				ps.i++
+				continue
+			}
+			break
+		}
+		ps.i++ // ')'
+		return MakeOpaque(name, nil, args...)
+	}
+	return polyLeaf(name, nil)
+}
+
+// phiMinMax recognises the clamp `x := a; if a > b { x = b }` (in any of its spellings) as
+// Min(a, b) / Max(a, b): a two-valued φ whose a-edge carries a ≤ b and whose b-edge b ≤ a.
+func (ff *FuncFacts) phiMinMax(ph *ssa.Phi, depth int) *Poly {
+	if ff.in == nil {
+		return nil
+	}
+	type ed struct {
+		v  ssa.Value
+		fs []*Atom
+	}
+	var eds []ed
+	var vals []ssa.Value
+	for i, e := range ph.Edges {
+		pred := ph.Block().Preds[i]
+		if !ff.BlockReachable(pred) {
+			continue
+		}
+		v := ff.Fwd(e)
+		fs := append(append([]*Atom{}, ff.OutFacts(pred)...), ff.EdgeFacts(pred, ph.Block())...)
+		eds = append(eds, ed{v, fs})
+		known := false
+		for _, x := range vals {
+			if x == v {
+				known = true
+			}
+		}
+		if !known {
+			vals = append(vals, v)
+		}
+	}
+	if len(vals) != 2 {
+		return nil
+	}
+	pa, pb := ff.poly(vals[0], depth+1), ff.poly(vals[1], depth+1)
+	// rel(x ≤ y) on every edge delivering x
+	holds := func(v ssa.Value, lo, hi *Poly) bool {
+		for _, e := range eds {
+			if e.v != v {
+				continue
+			}
+			ok := false
+			for _, a := range e.fs {
+				if (a.Rel != LE && a.Rel != LT) || a.A == nil || a.B == nil || a.B == NilMarker {
+					continue
+				}
+				var qa, qb *Poly
+				if a.A == ZeroMarker {
+					qa = newPoly()
+				} else {
+					qa = ff.poly(a.A, depth+1)
+				}
+				if a.B == ZeroMarker {
+					qb = newPoly()
+				} else {
+					qb = ff.poly(a.B, depth+1)
+				}
+				if qa.Equal(lo) && qb.Equal(hi) {
+					ok = true
+				}
+			}
+			if !ok {
+				return false
+			}
+		}
+		return true
+	}
+	switch {
+	case holds(vals[0], pa, pb) && holds(vals[1], pb, pa):
+		return MakeOpaque("Min", ph, pa, pb)
+	case holds(vals[0], pb, pa) && holds(vals[1], pa, pb):
+		return MakeOpaque("Max", ph, pa, pb)
+	}
+	return nil
+}
+
+// phiAccumulator recognises a loop-carried accumulator: a φ whose incoming values are one
+// initial value and, on the other edges, the φ itself plus a per-iteration amount that does
+// not depend on the φ (acc = acc ± c, possibly only on some paths).  Its value at any
+// moment is init + Σ c over the iterations run so far, written init + Sum[c@block]: two
+// accumulators fed with the same amount in the same block differ by a constant — the loop
+// invariant that makes `remaining = requested − Σ cancelled` and `cancelled = Σ cancelled`
+// interchangeable.
+func (ff *FuncFacts) phiAccumulator(ph *ssa.Phi, depth int) *Poly {
+	if ff.accBusy == nil {
+		ff.accBusy = map[*ssa.Phi]bool{}
+	}
+	if ff.accBusy[ph] {
+		return nil
+	}
+	if ff.LeafKey == nil {
+		if r, ok := ff.accMemo[ph]; ok {
+			if r == nil {
+				return nil
+			}
+			return r.clone()
+		}
+	}
+	ff.accBusy[ph] = true
+	defer delete(ff.accBusy, ph)
+	saved := ff.LeafKey
+	if saved == nil {
+		if ff.accMemo == nil {
+			ff.accMemo = map[*ssa.Phi]*Poly{}
+		}
+		ff.accMemo[ph] = nil
+		defer func() {
+			// filled by the return paths below through accResult
+			if r, ok := ff.accResult[ph]; ok {
+				ff.accMemo[ph] = r
+				delete(ff.accResult, ph)
+			}
+		}()
+	}
+	defer func() { ff.LeafKey = saved }()
+	selfKey := func(v ssa.Value) (string, bool) {
+		if v == ssa.Value(ph) || ff.Fwd(v) == ssa.Value(ph) {
+			return "@SELF", true
+		}
+		if saved != nil {
+			return saved(v)
+		}
+		return "", false
+	}
+	ff.LeafKey = selfKey
+	var init *Poly
+	sums := newPoly()
+	nBack := 0
+	seenVal := map[ssa.Value]bool{}
+	one := big.NewRat(1, 1)
+	for i, e := range ph.Edges {
+		pred := ph.Block().Preds[i]
+		if ff.in != nil && !ff.BlockReachable(pred) {
+			continue
+		}
+		var vals []ssa.Value
+		if ff.Fwd(e) == ssa.Value(ph) {
+			vals = []ssa.Value{e}
+		} else {
+			for _, c := range ff.CasesOf(e, nil, 3) {
+				vals = append(vals, c.Val)
+			}
+		}
+		for _, v := range vals {
+			if seenVal[ff.Fwd(v)] {
+				continue // the same value delivered over several edges is one update
+			}
+			seenVal[ff.Fwd(v)] = true
+			p := ff.poly(v, depth+1)
+			c, has := p.T["@SELF"]
+			selfFactor := func(q *Poly) bool { // the φ as a polynomial factor (not inside an operator)
+				for m := range q.T {
+					if m == "@SELF" {
+						continue
+					}
+					n, d := splitMono(m)
+					for _, f := range append(n, d...) {
+						if f == "@SELF" {
+							return true
+						}
+					}
+				}
+				return false
+			}
+			if selfFactor(p) {
+				return nil
+			}
+			if !has {
+				// an initial value (it may not mention the φ at all)
+				for m := range p.T {
+					if strings.Contains(m, "@SELF") {
+						return nil
+					}
+				}
+				if init != nil && !init.Equal(p) {
+					return nil
+				}
+				init = p
+				continue
+			}
+			if c.Cmp(one) != 0 {
+				return nil
+			}
+			nBack++
+			d := p.Sub(ParsePoly("@SELF"))
+			if d.IsZero() {
+				continue
+			}
+			// the per-iteration amount in ordinary leaf names (the φ as itself): the amount
+			// may well depend on the running value, e.g. Min(remaining, cap)
+			ff.LeafKey = saved
+			d2 := ff.poly(v, depth+1).Sub(polyLeaf(ff.termKey(ph), ph))
+			ff.LeafKey = selfKey
+			blk := -1
+			if in, ok := ff.Fwd(v).(ssa.Instruction); ok && in.Block() != nil {
+				blk = in.Block().Index
+			}
+			// Σ is linear: Σ(k·m) = k·Σ(m), one running sum per monomial
+			for m, k := range d2.T {
+				mp := newPoly()
+				mp.T[m] = big.NewRat(1, 1)
+				n, dd := splitMono(m)
+				for _, f := range append(n, dd...) {
+					if lv, ok := d2.Leaf[f]; ok {
+						mp.Leaf[f] = lv
+					}
+					if oq, ok := d2.Opq[f]; ok {
+						mp.Opq[f] = oq
+					}
+				}
+				sums = sums.Add(MakeOpaque(fmt.Sprintf("Sum@b%d", blk), ph, mp).Mul(polyConst(k)))
+			}
+		}
+	}
+	if init == nil || nBack == 0 {
+		return nil
+	}
+	res := init.Add(sums)
+	if saved == nil {
+		if ff.accResult == nil {
+			ff.accResult = map[*ssa.Phi]*Poly{}
+		}
+		ff.accResult[ph] = res
+	}
+	return res
+}
